@@ -5,3 +5,9 @@ def helper(x, eps=1e-6):
     x = x.clone()
     x[..., -1] += eps
     return x.sum()
+
+
+def split_dim(x, shape):
+    new_shape = list(shape)
+    new_shape += x.shape[1:]
+    return x.reshape(new_shape)
